@@ -1,4 +1,94 @@
-import CM.Model.Rel
+/-
+  C14 — Merge routes every id to the one dataset that owns it.
+  Property theorems about CM.Model.Rel (tied to /repo by the S-REL correspondence).
+-/
+import CM.Proofs.RelLemmas
 namespace CM.C14
-theorem placeholder : True := trivial
+open CM
+
+/-- unfold a successful merge -/
+theorem merge_ok (parts : List DS) (m : DS) (h : mergeDS parts = .ok m) :
+    ∃ idLists table, idsOf parts = .ok idLists ∧ ownerTable idLists 0 [] = .ok table ∧
+      m.ids = .ok (sortDedup (table.map (·.1))) ∧
+      (∀ f i, m.value f i = match ownerOf table i with
+        | none => .error .valueError
+        | some k => match parts[k]? with | some p => p.value f i | none => .error .internal) := by
+  unfold mergeDS at h
+  cases h1 : idsOf parts with
+  | error e => simp [h1, bind, Except.bind] at h
+  | ok idLists =>
+    cases h2 : ownerTable idLists 0 [] with
+    | error e => simp [h1, h2, bind, Except.bind] at h
+    | ok table =>
+      simp only [h1, h2, bind, Except.bind, pure, Except.pure] at h
+      injection h with h
+      subst h
+      exact ⟨idLists, table, rfl, h2, rfl, fun _ _ => rfl⟩
+
+/-- **Routing.**  For every id of a dataset of a merge that was accepted, every field returns exactly what that
+dataset returns (value, and in the code also the branch's hash: the switch reports the selected parent's hash). -/
+theorem routes_to_owner (parts : List DS) (m : DS) (h : mergeDS parts = .ok m)
+    (k : Nat) (p : DS) (hp : parts[k]? = some p) (ids : List String) (hids : p.ids = .ok ids)
+    (i : String) (hi : i ∈ ids) (f : String) : m.value f i = p.value f i := by
+  obtain ⟨idLists, table, h1, h2, _, hv⟩ := merge_ok parts m h
+  obtain ⟨ids', hids', hk⟩ := idsOf_get parts idLists h1 k p hp
+  rw [hids] at hids'; injection hids' with hids'; subst hids'
+  have := ((ownerTable_spec idLists 0 [] table h2).2.1 k ids i hk hi).2
+  rw [hv, this]
+  simp [hp]
+
+/-- an id that no dataset owns is rejected by every field -/
+theorem unknown_id_rejected (parts : List DS) (m : DS) (h : mergeDS parts = .ok m)
+    (i : String) (hi : ∀ p ∈ parts, ∀ ids, p.ids = .ok ids → i ∉ ids) (f : String) :
+    m.value f i = .error .valueError := by
+  obtain ⟨idLists, table, h1, h2, _, hv⟩ := merge_ok parts m h
+  have hall : ∀ ids ∈ idLists, i ∉ ids := by
+    intro ids hm
+    obtain ⟨k, hk⟩ := List.getElem?_of_mem hm
+    -- the k-th id list is the ids of the k-th dataset
+    have hlen : k < parts.length := by
+      have := idsOf_length parts idLists h1
+      have hk' := (List.getElem?_eq_some_iff.mp hk).1
+      omega
+    obtain ⟨ids', hids', hk'⟩ := idsOf_get parts idLists h1 k parts[k] (by simp [hlen])
+    rw [hk] at hk'; injection hk' with hk'; subst hk'
+    exact hi parts[k] (List.getElem_mem hlen) ids hids'
+  have := (ownerTable_spec idLists 0 [] table h2).2.2 i rfl hall
+  rw [hv, this]
+
+/-- overlapping ids are rejected: a dataset repeating an id of an earlier one makes the construction raise -/
+theorem overlap_rejected (ids₁ ids₂ : List String) (rest : List (List String)) (i : String)
+    (h1 : i ∈ ids₁) (h2 : i ∈ ids₂) (hfresh : (ids₁.any fun j => ([] : List (String × Nat)).any fun p => p.1 == j) = false) :
+    ownerTable (ids₁ :: ids₂ :: rest) 0 [] = .error .runtimeError := by
+  simp only [ownerTable, hfresh]
+  exact ownerTable_overlap ids₂ rest 1 _ i h2 0 (by simp [ownerOf_map_mem ids₁ 0 i h1])
+
+/-- the ids of a merge are the sorted union (every owned id and nothing else) -/
+theorem ids_are_union (parts : List DS) (m : DS) (h : mergeDS parts = .ok m) :
+    ∃ table ids, m.ids = .ok ids ∧ (∀ i, i ∈ ids ↔ (ownerOf table i).isSome) ∧
+      ∃ idLists, idsOf parts = .ok idLists ∧ ownerTable idLists 0 [] = .ok table := by
+  obtain ⟨idLists, table, h1, h2, hids, _⟩ := merge_ok parts m h
+  refine ⟨table, _, hids, ?_, idLists, h1, h2⟩
+  intro i
+  rw [mem_sortDedup]
+  simp only [ownerOf, Option.isSome_map, List.mem_map]
+  constructor
+  · rintro ⟨p, hp, rfl⟩
+    rw [List.find?_isSome]
+    exact ⟨p, hp, by simp⟩
+  · intro hs
+    rw [List.find?_isSome] at hs
+    obtain ⟨p, hp, hk⟩ := hs
+    exact ⟨p, hp, by simpa using hk⟩
+
+/-- non-vacuity: two disjoint datasets; `b1` is routed to the second one, `zz` is rejected -/
+example :
+    let a : DS := { fields := ["id", "x"], ids := .ok ["a2", "a1"], value := fun _ i => .ok (.app "A.x" [.str i] [] []) }
+    let b : DS := { fields := ["id", "x"], ids := .ok ["b1"], value := fun _ i => .ok (.app "B.x" [.str i] [] []) }
+    (match mergeDS [a, b] with
+      | .ok m => (match m.ids with | .ok ids => ids == ["a1", "a2", "b1"] | _ => false) &&
+                 (match m.value "x" "b1" with | .ok (.app f _ _ _) => f == "B.x" | _ => false) &&
+                 (match m.value "x" "zz" with | .error .valueError => true | _ => false)
+      | .error _ => false) = true := by decide +kernel
+
 end CM.C14
